@@ -77,6 +77,13 @@ impl FuseKind {
     }
 }
 
+pub const BUDGET_EXCEEDED: &str = "callback_budget_exceeded";
+pub const CALLBACK_BUDGET: usize = 400_000;
+
+pub fn set_budget(n: usize) {
+    with_ctx(|c| c.budget = n);
+}
+
 /// Payload of every panic the simulator injects.
 #[derive(Debug, Clone, Copy)]
 pub struct Injected(pub &'static str);
@@ -101,6 +108,9 @@ pub struct Ctx {
     /// calls per fuse kind since `begin_step`
     pub counts: [u32; 6],
     pub total_events: u64,
+    /// callback budget of the current operation (0 = unlimited): an operation of the real cache that
+    /// keeps calling back beyond it is not going to terminate (e.g. a walk over a cyclic list)
+    pub budget: usize,
 }
 
 impl Ctx {
@@ -115,6 +125,7 @@ impl Ctx {
             fuse_fired: false,
             counts: [0; 6],
             total_events: 0,
+            budget: 0,
         }
     }
 
@@ -252,6 +263,7 @@ fn new_tok(kind: u8, id: u32) -> u32 {
 
 #[inline]
 fn event(kind: u8, a: u32, b: u32, alive: &[u32], what: &str, fuse: Option<FuseKind>) {
+    let mut over_budget = false;
     let fire = CTX.with(|c| {
         let mut c = c.borrow_mut();
         if !c.enabled {
@@ -261,21 +273,40 @@ fn event(kind: u8, a: u32, b: u32, alive: &[u32], what: &str, fuse: Option<FuseK
             c.check_alive(t, what);
         }
         c.events.push(Ev { kind, a, b });
+        if c.budget != 0 && c.events.len() > c.budget {
+            c.budget = 0;
+            over_budget = true;
+            return false;
+        }
         match fuse {
             Some(k) => c.tick(k),
             None => false,
         }
     });
+    if over_budget {
+        std::panic::panic_any(Injected(BUDGET_EXCEEDED));
+    }
     if fire {
         std::panic::panic_any(Injected(fuse.unwrap().name()));
     }
 }
 
 fn on_drop(kind: u8, tok: u32) {
-    // never panics
+    // never panics, except to cut off an operation that has exceeded its callback budget (a drop
+    // loop over a cyclic list never ends) and only when no unwinding is in progress
+    let mut over_budget = false;
     let _ = CTX.try_with(|c| {
         if let Ok(mut c) = c.try_borrow_mut() {
             if !c.enabled {
+                return;
+            }
+            if c.budget != 0 && c.events.len() > c.budget {
+                // cut the operation off if that is possible (not while unwinding); in any case stop
+                // recording, so that a destructor loop that never ends cannot exhaust memory
+                over_budget = true;
+                if !std::thread::panicking() {
+                    c.budget = 0;
+                }
                 return;
             }
             let st = c.state.get(tok as usize).copied().unwrap_or(ST_NONE);
@@ -294,6 +325,9 @@ fn on_drop(kind: u8, tok: u32) {
             c.events.push(Ev { kind, a: tok, b: 0 });
         }
     });
+    if over_budget && !std::thread::panicking() {
+        std::panic::panic_any(Injected(BUDGET_EXCEEDED));
+    }
 }
 
 // ------------------------------------------------------------------------------------------
